@@ -740,3 +740,99 @@ def local_term(v, name, at):
 def call_name(v, t):
     c = decode_call(v.ctx, t)
     return c[0] if c else None
+
+
+# ============================================================================ finite order-type decision
+def _eval_rat(ctx, r, env):
+    """value (Fraction) of a rational term under env {atom id: Fraction}; None if an atom is unassigned"""
+    from fractions import Fraction
+
+    def poly(p):
+        tot = Fraction(0)
+        for m, c in p.items():
+            x = Fraction(c)
+            for a, e in m:
+                if a in env:
+                    val = env[a]
+                else:
+                    hd = ctx.atoms[a][0]
+                    if hd[0] == "const" and isinstance(hd[1], (int, float)) and not isinstance(hd[1], bool):
+                        val = Fraction(hd[1])
+                    else:
+                        return None
+                if val == 0 and e < 0:
+                    return None
+                x *= val ** e
+            tot += x
+        return tot
+    n, d = poly(r.num), poly(r.den)
+    if n is None or d is None or d == 0:
+        return None
+    return n / d
+
+
+def _eval_bool(ctx, t, env):
+    """truth value of a Boolean term (and/or/not over eq/ne/lt/le comparisons of numeric terms) or None"""
+    h = ctx.head_of(t)
+    if h is None:
+        val = _eval_rat(ctx, t, env)
+        return None if val is None else bool(val)
+    a = ctx.args_of(t)
+    if h[0] == "const" and isinstance(h[1], bool):
+        return h[1]
+    if h[0] in ("and", "or"):
+        vals = [_eval_bool(ctx, x, env) for x in a]
+        if any(x is None for x in vals):
+            return None
+        return all(vals) if h[0] == "and" else any(vals)
+    if h[0] == "not":
+        x = _eval_bool(ctx, a[0], env)
+        return None if x is None else not x
+    if h[0] == "cmp" and h[1] in ("eq", "ne", "lt", "le"):
+        x, y = _eval_rat(ctx, a[0], env), _eval_rat(ctx, a[1], env)
+        if x is None or y is None:
+            return None
+        return {"eq": x == y, "ne": x != y, "lt": x < y, "le": x <= y}[h[1]]
+    val = _eval_rat(ctx, t, env)
+    return None if val is None else bool(val)
+
+
+def order_equiv(ctx, t1, t2, variables, pre=None, lo=1):
+    """Are two Boolean terms over integer quantities `variables` (terms, each a single atom) the same predicate?
+    Both terms touch the quantities only through comparisons with each other and with integer constants, so the
+    finitely many order types over {lo .. max constant + 2} decide the question.  `pre(values tuple)` restricts the
+    assignments (a precondition established earlier on every path).  -> True / False / None (not decidable here:
+    some other atom occurs)."""
+    import itertools
+    from fractions import Fraction
+    ids = []
+    for x in variables:
+        a = x.single_atom()
+        if a is None:
+            return None
+        ids.append(a)
+    hi = lo + 2
+
+    def coeffs(r):
+        for p in (r.num, r.den):
+            for c in p.values():
+                yield c
+    for t in (t1, t2):
+        rs = [t]
+        for a in ctx.all_atoms(t):
+            rs.extend(ctx.atoms[a][1])
+        for r in rs:
+            for c in coeffs(r):
+                hi = max(hi, int(abs(c)) + 2)
+    if hi > 12:
+        return None
+    for vals in itertools.product(range(lo, hi + 1), repeat=len(ids)):
+        if pre is not None and not pre(vals):
+            continue
+        env = {i: Fraction(x) for i, x in zip(ids, vals)}
+        b1, b2 = _eval_bool(ctx, t1, env), _eval_bool(ctx, t2, env)
+        if b1 is None or b2 is None:
+            return None
+        if b1 != b2:
+            return False
+    return True
